@@ -1080,3 +1080,36 @@ Proof.
   exists [ex_open7 (Some 4242)]. split; [constructor; [apply ex_open7_ok; discriminate|constructor]|].
   split; [reflexivity|]. split; vm_compute; reflexivity.
 Qed.
+
+(* ---------------------------------------------------------------------------------------- *)
+(* 6. The property-level observation (ProcSpec.seen): what the caller sees of a refusal       *)
+(* ---------------------------------------------------------------------------------------- *)
+(* one step: same observation, same abstract state (corollary of the exact refinement pstep_ok) *)
+Lemma pstep_seen lost o s w : PInv lost s w -> op_ok o -> specified (abs s) o ->
+  seen o (fst (lstep (abs s) o)) = seen o (fst (fst (pstep o s w))) /\ snd (lstep (abs s) o) = abs (snd (fst (pstep o s w))).
+Proof.
+  intros HI Hok Hsp. destruct (pstep_ok lost o s w HI Hok) as [l [_ [_ R]]].
+  rewrite (R Hsp). split; reflexivity.
+Qed.
+
+(* whole histories *)
+Lemma refines_lifecycle_seen ops : Forall op_ok ops -> all_specified ops LIdle ->
+  seen_all ops (fst (lrun ops LIdle)) = seen_all ops (fst (fst (prun ops pobj0 world0))) /\ snd (lrun ops LIdle) = abs (snd (fst (prun ops pobj0 world0))).
+Proof.
+  intros Hok Hsp. rewrite (refines_lifecycle ops Hok Hsp). split; reflexivity.
+Qed.
+
+(* a refused call is seen as a failed call and leaves object and world as they were: whatever way the code reports
+   the refusal (which errno), the observation below is all the reference asks for *)
+Lemma refusal_seen_as_failure lost s w o :
+  PInv lost s w ->
+  (p_pid s = 0 /\ match o with PJoin _ | PKill _ | PRead2 _ _ _ => True | _ => False end) \/
+  (p_pid s <> 0 /\ match o with POpen _ _ _ _ _ | PStart _ => True | _ => False end) ->
+  snd (fst (pstep o s w)) = s /\ snd (pstep o s w) = w /\ seen o (fst (fst (pstep o s w))) =
+    match o with PRead2 _ _ _ => RIo (-1) | _ => RBool false end.
+Proof.
+  intros HI [[Hp Ho]|[Hp Ho]].
+  - rewrite (idle_refuses lost s w o HI Hp Ho). destruct o; try contradiction; repeat split; reflexivity.
+  - rewrite (running_refuses s w o Hp Ho). destruct o; try contradiction; repeat split; reflexivity.
+Qed.
+
